@@ -146,6 +146,8 @@ def is_private_helper(crate, b):
         return False
     if b.path.startswith(CONTRACT_MODULES):
         return False
+    if any(n.get('k') == 'Loop' for n in b.walk()):
+        return False    # functions with loops are never inlined: analysed on their own
     return internal_callers(crate).get(b.path, 0) > 0
 
 
@@ -211,10 +213,23 @@ def collect(crate, body):
 
 def canon_text(t):
     import re
-    # loop/closure node ids are positions in the HIR: not stable under unrelated edits -> anonymise
-    t = re.sub(r'havoc\((\d+), \d+\)', 'loopvar', t)
-    t = re.sub(r'item\(\d+\)', 'item', t)
-    t = re.sub(r'index_of\(\d+\)', 'index', t)
+    # loop/closure node ids are positions in the HIR: not stable under unrelated edits -> number them by first appearance
+    def renumber(pattern, label, text):
+        seen = {}
+
+        def rep(m):
+            k = m.group(1)
+            if k not in seen:
+                seen[k] = len(seen) + 1
+            return f'{label}#{seen[k]}' if len(seen) > 0 else label
+        out = re.sub(pattern, rep, text)
+        if len(seen) == 1:
+            out = out.replace(f'{label}#1', label)
+        return out
+    t = renumber(r'havoc\((\d+, \d+)\)', 'loopvar', t)
+    t = renumber(r'elemhavoc\(([^()]*(?:\([^()]*\))?[^()]*), \d+, \d+\)', 'elemwise-updated', t) if 'elemhavoc' in t else t
+    t = renumber(r'item\((\d+)\)', 'item', t)
+    t = renumber(r'index_of\((\d+)\)', 'index', t)
     t = re.sub(r'cp\(\d+, (\d+)\)', r'closure-param\1', t)
     t = re.sub(r'clo\(\d+\)', 'closure', t)
     t = re.sub(r'loopval\(\d+\)', 'loopval', t)
